@@ -59,7 +59,7 @@ type fsState struct {
 	acks             int
 	inflight         map[string]bool
 	begun            int
-	lastStorage      string // name of the last storage event (phase descriptor)
+	lastStorage      string         // name of the last storage event (phase descriptor)
 	allRoots         map[string]int // every root ever begun -> ordinal
 }
 
@@ -202,7 +202,7 @@ func (im *image) digest() string {
 }
 
 // imagesAt synthesises the crash images for the state after a trace prefix.
-func imagesAt(s *fsState, finalJournal, finalIdx []byte, r *rand.Rand, point int) []*image {
+func imagesAt(s *fsState, finalJournal, finalIdx []byte, r *rand.Rand, point int, lean bool) []*image {
 	allowed := []string{}
 	if s.lastAck != "" {
 		allowed = append(allowed, s.lastAck)
@@ -276,7 +276,7 @@ func imagesAt(s *fsState, finalJournal, finalIdx []byte, r *rand.Rand, point int
 		if journalMayBeMissing {
 			out = append(out, mk("durable-only", nil, m, nil, false))
 		}
-		if len(unsynced) == 0 || !s.journalCreated {
+		if len(unsynced) == 0 || !s.journalCreated || lean {
 			continue
 		}
 		if mi > 0 && r.Intn(2) == 0 {
@@ -502,6 +502,14 @@ func runReopenBatch(c *rig.Ctx, images []*image, label string) map[*image]*reope
 	return out
 }
 
+// bigPhase reports whether the journal already holds more than 48 MB (the large uncommitted write of the "huge" shape).
+func bigPhase(s *fsState) bool {
+	if n := len(s.jw); n > 0 {
+		return s.jw[n-1].off+s.jw[n-1].n > 48<<20
+	}
+	return false
+}
+
 type recInfo struct {
 	off, n int64
 	root   bool
@@ -533,12 +541,15 @@ func c03(c *rig.Ctx) {
 	c.Assume("strace (ptrace) totally orders the completed syscalls of the writer, including its BEGIN/ACK marker writes")
 	nh := c.Pick(12, 300)
 	shapes := []string{"small", "small", "small", "big"}
-	var allImages, unsyncedPoints, tornRoot, inflightPts, dataLossReported int
+	var allImages, unsyncedPoints, tornRoot, inflightPts, dataLossReported, hugeRuns int
 	for h := 0; h < nh; h++ {
 		r := c.SubRand("c03", h)
 		shape := shapes[r.Intn(len(shapes))]
 		if c.Thorough() && h%40 == 7 {
 			shape = "many"
+		}
+		if h == nh-1 || c.Thorough() && h%25 == 3 {
+			shape = "huge"
 		}
 		steps := 6 + r.Intn(14)
 		if shape == "big" {
@@ -590,7 +601,10 @@ func c03(c *rig.Ctx) {
 			if len(st.inflight) > 0 {
 				inflightPts++
 			}
-			for _, im := range imagesAt(st, finalJournal, finalIdx, r, i) {
+			if shape == "huge" && (!bigPhase(st) || e.Call == "pwrite64" && r.Intn(3) != 0) {
+				continue // 70 MB images: only crash points in or after the large uncommitted write, sampled
+			}
+			for _, im := range imagesAt(st, finalJournal, finalIdx, r, i, shape == "huge") {
 				d := im.digest()
 				if seen[d] {
 					continue
@@ -611,7 +625,7 @@ func c03(c *rig.Ctx) {
 		var dlImages []*image
 		var dlMust []bool
 		finalManifest, _ := os.ReadFile(filepath.Join(dbdir, "manifest"))
-		for k := 0; k < 6 && len(recs) > 2; k++ {
+		for k := 0; k < 6 && len(recs) > 2 && shape != "huge"; k++ {
 			i := r.Intn(len(recs))
 			j := append([]byte{}, finalJournal...)
 			rec := recs[i]
@@ -635,6 +649,9 @@ func c03(c *rig.Ctx) {
 			im.ID = fmt.Sprintf("h%d/damage/rec%d", h, i)
 			dlImages = append(dlImages, im)
 			dlMust = append(dlMust, must)
+		}
+		if shape == "huge" {
+			hugeRuns++
 		}
 		res := runReopenBatch(c, append(images, dlImages...), fmt.Sprint(h))
 		allImages += len(images) + len(dlImages)
@@ -708,6 +725,7 @@ func c03(c *rig.Ctx) {
 	c.Count("c03.crash_points_with_inflight_commit", inflightPts)
 	c.Count("c03.images_recovering_inflight_or_contested_root", tornRoot)
 	c.Count("c03.dataloss_reports_accepted", dataLossReported)
+	c.Count("c03.huge_histories_with_index_flush_and_intermediate_sync", hugeRuns)
 	c.Require(allImages > 0 && inflightPts > 0, "no crash point with an in-flight commit")
 }
 
